@@ -14,8 +14,61 @@ def fail(k, case):
         fails[k].append(case)
 
 
+def symv_cases(rnd):
+    """base.symv with a sparse A against the dense copy (both triangles,
+    blocks at an offset, strides of either sign, vector offsets)"""
+    for tc in ('d', 'z'):
+        def val():
+            return rnd.uniform(-2, 2) if tc == 'd' else complex(
+                rnd.uniform(-2, 2), rnd.uniform(-2, 2))
+        nr, nc = 5, 6
+        for dens in (1.0, 0.7):
+            ent = {}
+            for j in range(nc):
+                for i in range(nr):
+                    if rnd.random() < dens:
+                        ent[(i, j)] = val()
+            A = spmatrix([ent[k] for k in ent], [k[0] for k in ent],
+                         [k[1] for k in ent], (nr, nc), tc=tc)
+            D = matrix(A)
+            for uplo in ('L', 'U'):
+                for (n, oi, oj) in ((5, 0, 0), (3, 1, 2), (2, 3, 4),
+                                    (1, 4, 5), (0, 0, 0)):
+                    oA = oi + oj * nr
+                    for ix, iy, ox, oy in ((1, 1, 0, 0), (2, -1, 1, 3),
+                                           (-1, 2, 4, 0), (-2, -1, 0, 2),
+                                           (1, -2, 3, 1)):
+                        x0 = matrix([val() for _ in range(
+                            ox + 1 + max(n - 1, 0) * abs(ix) + 2)], tc=tc)
+                        y0 = matrix([val() for _ in range(
+                            oy + 1 + max(n - 1, 0) * abs(iy) + 2)], tc=tc)
+                        al, be = val(), val()
+                        ys, yd = +y0, +y0
+                        kw = dict(uplo=uplo, alpha=al, beta=be, n=n,
+                                  incx=ix, incy=iy, offsetA=oA, offsetx=ox,
+                                  offsety=oy)
+                        try:
+                            base.symv(D, x0, yd, **kw)
+                        except Exception:
+                            refused[0] += 1
+                            continue
+                        try:
+                            base.symv(A, x0, ys, **kw)
+                        except Exception as e:
+                            fail('gemv', dict(kw, symv=True, tc=tc,
+                                              alpha=str(al), beta=str(be),
+                                              sparse_raised=repr(e)))
+                            continue
+                        compared_symv[0] += 1
+                        if any(abs(u - v) > 1e-9 * max(1, abs(u), abs(v))
+                               for u, v in zip(list(ys), list(yd))):
+                            fail('gemv', dict(kw, symv=True, tc=tc,
+                                              alpha=str(al), beta=str(be)))
+
+
 refused = [0]
 compared = [0]
+compared_symv = [0]
 
 
 def main():
@@ -69,6 +122,11 @@ def main():
                              for u, v in zip(list(ys), list(yd))):
                           fail('gemv', dict(kw, tc=tc, alpha=str(al),
                                             beta=str(be)))
+    symv_cases(rnd)
+    if compared_symv[0] < 100:
+        fail('gemv', {'battery vacuous': 'only %d symv comparisons, %d '
+                      'dense calls refused' % (compared_symv[0],
+                                               refused[0])})
     if compared[0] < 100:
         fail('gemv', {'battery vacuous': 'only %d comparisons, %d dense '
                       'calls refused' % (compared[0], refused[0])})
